@@ -312,6 +312,10 @@ impl<'a, 'tcx> FnCx<'a, 'tcx> {
                         }
                     }
                 }
+                if let Some(sdid) = c.check_static_ptr(tcx) {
+                    // `&STATIC`: name the static
+                    parts.push(format!("\"static\":{}", js(&self.cx.path(sdid))));
+                }
                 let is_scalar = ty.is_integral() || ty.is_bool() || ty.is_char();
                 if is_scalar {
                     if let Some(si) = c.const_.try_eval_scalar_int(tcx, self.env) {
